@@ -28,21 +28,22 @@ Inductive tstep (s : sys) : label -> sys -> Prop :=
       tstep s (LRecv i) (finish (with_ch s ch') i c (RFail e))
   | TRecvClosed i c : nth_error (callers s) i = Some c -> c_st c = CWaiting -> try_recv i (ch s) = RClosed ->
       tstep s (LRecv i) (finish s i c RBrokenPipe)
-  | TTimeout i c : nth_error (callers s) i = Some c -> c_st c = CWaiting -> c_kind c = KCall -> tmo s = true ->
+  | TTimeout i c : nth_error (callers s) i = Some c -> c_st c = CWaiting -> c_kind c <> KNoReply -> tmo s = true ->
       tstep s (LTimeout i) (finish s i c RTimedOut)
   | TRead it rest : reader s = RIdle -> socket s = it :: rest ->
-      tstep s LRead (with_reader (with_socket s rest) (RPush it (fanout it)))
+      tstep s LRead (with_reader (with_socket s rest) (RPush it (fanout s it)))
   | TPushOk it n ch' : reader s = RPush it (S n) -> try_push it (ch s) = Pushed ch' ->
       tstep s LPush (with_reader (with_ch s ch') (RPush it n))
   | TPushSkip it n : reader s = RPush it (S n) -> (try_push it (ch s) = PNoRecv \/ try_push it (ch s) = PClosed) ->
       tstep s LPush (with_reader s (RPush it n))
   | TNextMsg m : reader s = RPush (IMsg m) O -> tstep s LNext (with_reader s RIdle)
   | TNextFail e : reader s = RPush (IFail e) O -> tstep s LNext (with_reader (with_ch s (close (ch s))) RStopped)
-  | TArrive it : causal_ok s it = true -> tstep s (LArrive it) (with_socket s (socket s ++ [it])).
+  | TArrive it : causal_ok s it = true -> tstep s (LArrive it) (with_socket s (socket s ++ [it]))
+  | THijack (e : bool) : reader s = RIdle -> (if e then kerr s else kret s) = true -> tstep s (LHijack e) (hijack s e).
 
 Lemma step_tstep l s s' : step l s = Some s' -> tstep s l s'.
 Proof.
-  unfold step. destruct l as [i|i|i ok|i|i| | | |it].
+  unfold step. destruct l as [i|i|i ok|i|i| | | |it|e].
   - destruct (nth_error (callers s) i) as [c|] eqn:Ec; [|discriminate]. destruct (c_st c) eqn:Est; try discriminate.
     intros H. inversion H; subst s'. now apply TSub.
   - destruct (nth_error (callers s) i) as [c|] eqn:Ec; [|discriminate]. destruct (wlock s) eqn:Ew; [discriminate|].
@@ -64,7 +65,8 @@ Proof.
     + intros H; inversion H; subst s'. now apply TRecvClosed.
   - destruct (nth_error (callers s) i) as [c|] eqn:Ec; [|discriminate].
     destruct (c_st c) eqn:Est; try discriminate. destruct (c_kind c) eqn:Ek; try discriminate.
-    destruct (tmo s) eqn:Et; [|discriminate]. intros H; inversion H; subst s'. now apply TTimeout.
+    + destruct (tmo s) eqn:Et; [|discriminate]. intros H; inversion H; subst s'. apply TTimeout; try assumption. congruence.
+    + destruct (tmo s) eqn:Et; [|discriminate]. intros H; inversion H; subst s'. apply TTimeout; try assumption. congruence.
   - destruct (reader s) eqn:Er; try discriminate. destruct (socket s) as [|it rest] eqn:Es; [discriminate|].
     intros H; inversion H; subst s'. now apply TRead.
   - destruct (reader s) as [|it [|n]|] eqn:Er; try discriminate.
@@ -76,6 +78,8 @@ Proof.
     + eapply TNextMsg; eauto.
     + eapply TNextFail; eauto.
   - destruct (causal_ok s it) eqn:Ec; [|discriminate]. intros H; inversion H; subst s'. now apply TArrive.
+  - destruct (reader s) eqn:Er; try discriminate. destruct (if e then kerr s else kret s) eqn:Ek; [|discriminate].
+    intros H; inversion H; subst s'. now apply THijack.
 Qed.
 
 (* ---- list update ---- *)
@@ -95,3 +99,24 @@ Proof.
 Qed.
 Lemma length_upd {A} (l : list A) i x : length (upd l i x) = length l.
 Proof. revert i; induction l as [|a l IH]; intros [|i]; cbn; try reflexivity. now rewrite IH. Qed.
+
+(* ---- what LHijack leaves alone ---- *)
+Lemma hijack_callers s e : callers (hijack s e) = callers s.  Proof. reflexivity. Qed.
+Lemma hijack_reader s e : reader (hijack s e) = reader s.  Proof. reflexivity. Qed.
+Lemma hijack_socket s e : socket (hijack s e) = socket s.  Proof. reflexivity. Qed.
+Lemma hijack_wire s e : wire (hijack s e) = wire s.  Proof. reflexivity. Qed.
+Lemma hijack_wlock s e : wlock (hijack s e) = wlock s.  Proof. reflexivity. Qed.
+Lemma hijack_tmo s e : tmo (hijack s e) = tmo s.  Proof. reflexivity. Qed.
+Lemma hijack_done s e : done_log (hijack s e) = done_log s.  Proof. reflexivity. Qed.
+Lemma hijack_ch s e : ch (hijack s e) = ch s \/ ch (hijack s e) = close (ch s).
+Proof. unfold hijack. cbn [ch]. destruct (_ || _); [now left | now right]. Qed.
+Lemma hijack_log s e : log (ch (hijack s e)) = log (ch s).
+Proof. destruct (hijack_ch s e) as [-> | ->]; reflexivity. Qed.
+Lemma hijack_cursor s e i : cursor (ch (hijack s e)) i = cursor (ch s) i.
+Proof. destruct (hijack_ch s e) as [-> | ->]; reflexivity. Qed.
+Lemma hijack_tail s e : tail (ch (hijack s e)) = tail (ch s).
+Proof. destruct (hijack_ch s e) as [-> | ->]; reflexivity. Qed.
+Lemma hijack_rcv s e : rcv (ch (hijack s e)) = rcv (ch s).
+Proof. destruct (hijack_ch s e) as [-> | ->]; reflexivity. Qed.
+Lemma hijack_closed s e : closed (ch s) = true -> closed (ch (hijack s e)) = true.
+Proof. destruct (hijack_ch s e) as [-> | ->]; [auto | reflexivity]. Qed.
